@@ -584,6 +584,26 @@ func genSchedPlan(seed uint64, pool []plan.Op, byLang map[int][]int, neutral []i
 		}
 		nt = 0
 	}
+	newHeavy := false
+	if nt > 0 && r.Intn(12) == 0 { // many callers inside NewMnemonic at once (bounded resources such as slot arenas, pools)
+		var news []int
+		for _, i := range cand {
+			if pool[i].K == "new" && ref.ValidWordCount(pool[i].N) {
+				news = append(news, i)
+			}
+		}
+		if len(news) > 0 {
+			for t := 0; t < r.Range(5, 8); t++ {
+				ops := []plan.Op{pool[news[r.Intn(len(news))]]}
+				if r.Intn(3) == 0 {
+					ops = append(ops, pool[news[r.Intn(len(news))]])
+				}
+				sp.Tasks = append(sp.Tasks, ops)
+			}
+			nt = 0
+			newHeavy = true
+		}
+	}
 	if nt > 0 && r.Intn(15) == 0 && len(neutral) > 0 { // overlapping MnemonicToSeed calls (slow under the detector: few and short)
 		var seeds []int
 		for _, i := range neutral {
@@ -635,7 +655,7 @@ func genSchedPlan(seed uint64, pool []plan.Op, byLang map[int][]int, neutral []i
 			break
 		}
 	}
-	if r.Intn(2) == 0 { // the default-configured process: devices are the OS reader itself, fault-free (fragmenting only)
+	if newHeavy || r.Intn(2) == 0 { // the default-configured process: devices are the OS reader itself, fault-free (fragmenting only)
 		sp.Preinit = true
 		for t := range sp.Tasks {
 			for k := range sp.Tasks[t] {
@@ -673,6 +693,10 @@ func genSchedPlan(seed uint64, pool []plan.Op, byLang map[int][]int, neutral []i
 	default:
 		sc.Policy = "serial"
 		sc.Order = r.Perm(len(sp.Tasks))
+	}
+	if newHeavy { // park every caller inside the device read before anybody gets its bytes
+		sc.Policy, sc.MeanGap, sc.Stay, sc.Order, sc.D = "walk", 5000, 0, nil, 0
+		sc.HotSites = []int{0}
 	}
 	if r.Intn(3) == 0 { // fault: a sync.Pool in the code under test drops what is Put into it
 		sc.PoolSeed = r.Uint64() | 1
